@@ -140,6 +140,45 @@ class Func:
         return f"<Func {self.qualname}>"
 
 
+class _Unroll(ast.NodeTransformer):
+    """Source normal form: a ``for`` statement over a literal tuple / list of at most four
+    elements (no break / continue / else) is replaced by its iterations, each preceded by the
+    assignment of the element to the loop target.  Behaviour preserving; lets the term
+    analyses see `for x in (a, b): ...` and the written-out sequence as the same program."""
+
+    MAX = 4
+
+    def visit_For(self, node: ast.For):
+        self.generic_visit(node)
+        it = node.iter
+        if not isinstance(it, (ast.Tuple, ast.List)) or not (1 <= len(it.elts) <= self.MAX) or node.orelse:
+            return node
+        if any(isinstance(e, ast.Starred) for e in it.elts):
+            return node
+        for st in node.body:
+            for x in ast.walk(st):
+                if isinstance(x, (ast.Break, ast.Continue)):
+                    return node
+        if not isinstance(node.target, (ast.Name, ast.Tuple)):
+            return node
+        import copy
+
+        out: list[ast.stmt] = []
+        for e in it.elts:
+            tgt = copy.deepcopy(node.target)
+            asg = ast.Assign(targets=[tgt], value=copy.deepcopy(e), type_comment=None)
+            ast.copy_location(asg, node)
+            out.append(asg)
+            out.extend(copy.deepcopy(st) for st in node.body)
+        return out
+
+
+def normalise_tree(tree: ast.Module) -> ast.Module:
+    tree = _Unroll().visit(tree)
+    ast.fix_missing_locations(tree)
+    return tree
+
+
 class Repo:
     def __init__(self, root: str, overrides: dict[str, str] | None = None) -> None:
         self.root = os.path.abspath(root)
@@ -178,6 +217,7 @@ class Repo:
                     tree = ast.parse(source, filename=rel)
                 except SyntaxError as exc:
                     raise AnalysisError(f"cannot parse {rel}: {exc}") from exc
+                tree = normalise_tree(tree)
                 _attach_parents(tree)
                 self.modules[mod] = Module(mod, path, rel, source, tree, is_pkg)
         # virtual modules: overrides for files that do not exist on disk
@@ -194,6 +234,7 @@ class Repo:
                 tree = ast.parse(source, filename=rel)
             except SyntaxError as exc:
                 raise AnalysisError(f"cannot parse {rel}: {exc}") from exc
+            tree = normalise_tree(tree)
             _attach_parents(tree)
             self.modules[mod] = Module(mod, path, rel, source, tree, False)
 
